@@ -310,11 +310,11 @@ pub fn run(a: &Args) {
             }
             _ => {
                 match rng.below(4) {
-                    0 => { let n = *rng.pick(&[0i64, 1, 999, 1000, 1001]); let e = *rng.pick(&[0i64, 1000, 1001]);
+                    0 => { let n = *rng.pick(&[0i64, 1, 999, 1000, 1001, 1001, 65535, 65536, 66536, 66537, 131072]); let e = *rng.pick(&[0i64, 1000, 1001, 1001, 65535, 65536, 66536, 66537, 131072]);
                            let p = Predicate { nodes: vec![Node { edge_start: u16::MAX, program_address: ContentAddress([0; 32]) }; n as usize], edges: vec![0; e as usize] };
                            push(&mut out, format!("TCheckPredicate {} {} {}", n, e, coq_bool(chk::predicate::check(&p).is_ok())), "check_predicate", json!([n, e])); }
                     1 => { let k = *rng.pick(&[0usize, 1, 99, 100, 101]);
-                           let sizes: Vec<(i64, i64)> = (0..k).map(|i| if i == k / 2 { (*rng.pick(&[1000i64, 1001, 3]), *rng.pick(&[1000i64, 1001, 0])) } else { (1, 0) }).collect();
+                           let sizes: Vec<(i64, i64)> = (0..k).map(|i| if i == k / 2 { (*rng.pick(&[1000i64, 1001, 3, 65536, 66000]), *rng.pick(&[1000i64, 1001, 0, 65536, 65543])) } else { (1, 0) }).collect();
                            let ps: Vec<Predicate> = sizes.iter().map(|(n, e)| Predicate { nodes: vec![Node { edge_start: u16::MAX, program_address: ContentAddress([0; 32]) }; *n as usize], edges: vec![0; *e as usize] }).collect();
                            push(&mut out, format!("TCheckContract {} {}", list_of(&sizes, |s| format!("({}, {})", s.0, s.1)), coq_bool(chk::predicate::check_contract(&ps).is_ok())), "check_contract", json!(k)); }
                     _ => {
